@@ -756,7 +756,7 @@ impl Gen {
                 }
             }
             "par" => crate::par_runner::next_op(self, r),
-            p if p.starts_with("table") => crate::gen_ext::next_table(self, r),
+            p if p.starts_with("table") || p == "xback-table" => crate::gen_ext::next_table(self, r),
             p if p.starts_with("set") => crate::gen_ext::next_set(self, r),
             p if p.starts_with("entry") => crate::gen_ext::next_entry(self, r),
             p if p.starts_with("serde") => crate::serde_runner::next_op(self, r),
